@@ -3,6 +3,8 @@ package main
 import (
 	"fmt"
 	"os"
+	"regexp"
+	"strconv"
 	"go/ast"
 	"go/token"
 	"go/types"
@@ -1348,6 +1350,7 @@ func (fv *FuncVerifier) runLoopR(st *State, env *Env, lc *loopCtx, label string,
 
 	lc.entry = st.Clone()
 	setNames(st)
+	m0 := fv.nfresh // every symbol created from here on is specific to one iteration
 	// 1. invariants hold on entry
 	for _, iv := range fv.loopInvariants(st, lc) {
 		fv.obligeNamedAt(st, "F", fmt.Sprintf("inv[loop%d,%d].entry", lc.ord, iv.cl.Ord), iv.t, lc.bodyPos, "loop invariant holds on entry: "+iv.cl.Text)
@@ -1375,6 +1378,10 @@ func (fv *FuncVerifier) runLoopR(st *State, env *Env, lc *loopCtx, label string,
 		dec0 = append(dec0, fv.evalClause(head, cl, lc.bodyPos, lc.names, lc.entry))
 	}
 	g := guard(head)
+	// engine-derived iteration summary for loops that can be left from inside the body (see autoIterInvariant)
+	if inv, ok := fv.autoIterInvariant(head, g, lc, body, m0); ok {
+		head.Assume(inv)
+	}
 	var outs []Outcome
 	// exit branch
 	exit := head.Clone()
@@ -1960,4 +1967,192 @@ func (fv *FuncVerifier) evalIterator(st *State, env *Env, e ast.Expr) iterInfo {
 	fv.nondet = append(fv.nondet, "range over unknown iterator")
 	fv.note("range over iterator %s at %s: yielded values unconstrained, iteration may have arbitrary effects", exprString(e), fv.pos(e.Pos()))
 	return iterInfo{val: v, pure: false}
+}
+
+// autoIterInvariant derives, without any annotation, what every COMPLETED iteration of a counted loop (one with an
+// it<k> ghost) is known to satisfy: the body is executed once on a scratch copy of the arbitrary iteration; the
+// conditions under which it reaches its end (rather than leaving the loop by return, break, panic ...) form a formula
+// N(it) over (a) symbols that exist before the loop - rigid, hence the same in every iteration - and (b) symbols
+// created for this one iteration (havocked variables, call results), which are existentially closed by Skolem
+// functions of the iteration number. The loop head may then assume  forall a in [0, it): N(a)  - e.g. for a search
+// loop `for k := range m { if P(k) { return true } }` this is "no earlier key satisfied P". The formula is valid by
+// construction (each completed iteration took one of the paths summarised), so no obligation is attached to it; it
+// is derived from the real body on every run and therefore follows any restructuring of the loop.
+func (fv *FuncVerifier) autoIterInvariant(head *State, g Term, lc *loopCtx, body func(st *State) []Outcome, m0 int) (Term, bool) {
+	if os.Getenv("GOVC_NO_AUTOINV") != "" {
+		return Term{}, false
+	}
+	itName := fmt.Sprintf("it%d", lc.ord)
+	it, ok := head.ghost[itName]
+	if !ok || !freshSym.MatchString(it.S) {
+		return Term{}, false
+	}
+	// only loops whose body can leave the loop early: otherwise N is (nearly) `true`
+	leaves := false
+	var bodyStmt *ast.BlockStmt
+	switch b := lc.stmt.(type) {
+	case *ast.ForStmt:
+		bodyStmt = b.Body
+	case *ast.RangeStmt:
+		bodyStmt = b.Body
+	}
+	if bodyStmt == nil {
+		return Term{}, false
+	}
+	ast.Inspect(bodyStmt, func(n ast.Node) bool {
+		switch x := n.(type) {
+		case *ast.FuncLit:
+			return false
+		case *ast.ReturnStmt:
+			leaves = true
+		case *ast.BranchStmt:
+			if x.Tok == token.BREAK || x.Tok == token.GOTO || (x.Tok == token.CONTINUE && x.Label != nil) {
+				leaves = true
+			}
+		}
+		return true
+	})
+	if !leaves {
+		return Term{}, false
+	}
+	// dry run: nothing it records may survive
+	nObls, nNotes, nBind, nNondet, nPanic, nGW := len(fv.obls), len(fv.notes), len(fv.bindErrors), len(fv.nondet), len(fv.panicStates), len(fv.globalWrites)
+	savedNames := map[string]Term{}
+	for k, v := range lc.names {
+		savedNames[k] = v
+	}
+	fv.dryRun++
+	d := head.Clone()
+	d.Assume(g)
+	base := len(d.pc)
+	basePc := append([]Term(nil), d.pc...)
+	outs := body(d)
+	fv.dryRun--
+	fv.obls, fv.notes, fv.bindErrors, fv.nondet, fv.panicStates, fv.globalWrites = fv.obls[:nObls], fv.notes[:nNotes], fv.bindErrors[:nBind], fv.nondet[:nNondet], fv.panicStates[:nPanic], fv.globalWrites[:nGW]
+	for k := range lc.names {
+		delete(lc.names, k)
+	}
+	for k, v := range savedNames {
+		lc.names[k] = v
+	}
+	var alts []Term
+	for _, o := range outs {
+		if !(o.kind == okNormal || (o.kind == okContinue && o.label == "")) {
+			if o.kind == okContinue {
+				// a labelled continue: whether it targets this loop is decided by the caller; stay conservative
+				return Term{}, false
+			}
+			continue
+		}
+		if len(o.st.pc) < base {
+			return Term{}, false
+		}
+		for i := 0; i < base; i++ {
+			if o.st.pc[i].S != basePc[i].S {
+				return Term{}, false
+			}
+		}
+		alts = append(alts, And(o.st.pc[base:]...))
+	}
+	if len(alts) == 0 {
+		return Term{}, false
+	}
+	n := Or(alts...)
+	if n.S == "true" || len(n.S) > 20000 {
+		return Term{}, false
+	}
+	fv.nfresh++
+	bv := fmt.Sprintf("ai%d$", fv.nfresh)
+	// substitute: the iteration counter becomes the bound variable; iteration-specific symbols become Skolem terms
+	okAll := true
+	var hasAt string
+	body2 := mapSymbols(n.S, func(tok string) string {
+		if tok == it.S {
+			return bv
+		}
+		if !freshSym.MatchString(tok) {
+			return tok
+		}
+		num, _ := strconv.Atoi(tok[strings.LastIndex(tok, "!")+1:])
+		if num <= m0 {
+			return tok
+		}
+		srt, known := fv.consts[tok]
+		if !known {
+			okAll = false
+			return tok
+		}
+		sk := fv.w.UFun("sk_"+tok+"_"+sanitize(fv.fn.Key), []Sort{SInt}, srt, "")
+		return "(" + sk + " " + bv + ")"
+	})
+	if !okAll {
+		return Term{}, false
+	}
+	// trigger: an element read at the bound position, if the summary has one
+	if m := regexp.MustCompile(`\(at_[A-Za-z0-9_]+ [^\s()]+ ` + regexp.QuoteMeta(bv) + `\)`).FindString(body2); m != "" {
+		hasAt = m
+	}
+	pat := ""
+	if hasAt != "" {
+		pat = " :pattern (" + hasAt + ")"
+	}
+	var q string
+	if pat != "" {
+		q = fmt.Sprintf("(forall ((%[1]s Int)) (! (=> (and (<= 0 %[1]s) (< %[1]s %[2]s)) %[3]s)%[4]s))", bv, it.S, body2, pat)
+	} else {
+		q = fmt.Sprintf("(forall ((%[1]s Int)) (=> (and (<= 0 %[1]s) (< %[1]s %[2]s)) %[3]s))", bv, it.S, body2)
+	}
+	fv.note("engine-derived iteration summary assumed at the head of loop %d (%s)", lc.ord, fv.pos(lc.bodyPos))
+	return Term{q, SBool}, true
+}
+
+var freshSym = regexp.MustCompile(`^[A-Za-z0-9_]+![0-9]+$`)
+
+// mapSymbols rewrites every symbol token of an SMT-LIB term (string literals are copied verbatim).
+func mapSymbols(s string, f func(string) string) string {
+	var b strings.Builder
+	i := 0
+	for i < len(s) {
+		c := s[i]
+		switch {
+		case c == '"':
+			j := i + 1
+			for j < len(s) {
+				if s[j] == '"' {
+					if j+1 < len(s) && s[j+1] == '"' {
+						j += 2
+						continue
+					}
+					break
+				}
+				j++
+			}
+			if j < len(s) {
+				j++
+			}
+			b.WriteString(s[i:j])
+			i = j
+		case c == '|':
+			j := i + 1
+			for j < len(s) && s[j] != '|' {
+				j++
+			}
+			if j < len(s) {
+				j++
+			}
+			b.WriteString(s[i:j])
+			i = j
+		case c == '(' || c == ')' || c == ' ' || c == '\n' || c == '\t':
+			b.WriteByte(c)
+			i++
+		default:
+			j := i
+			for j < len(s) && s[j] != '(' && s[j] != ')' && s[j] != ' ' && s[j] != '\n' && s[j] != '\t' && s[j] != '"' {
+				j++
+			}
+			b.WriteString(f(s[i:j]))
+			i = j
+		}
+	}
+	return b.String()
 }
